@@ -761,6 +761,15 @@ impl TransportManager {
             ));
         }
 
+        // The transport must be installed before anything is recorded for this dial. Otherwise
+        // an address that can never be dialed would be remembered for the peer, and a later
+        // `dial()` would wait for (or cancel) a transport that does not exist.
+        if !self.transports.keys().any(|installed| *installed == supported_transport) {
+            return Err(Error::TransportNotSupported(
+                address_record.address().clone(),
+            ));
+        }
+
         // when constructing `AddressRecord`, `PeerId` was verified to be part of the address
         let remote_peer_id =
             PeerId::try_from_multiaddr(address_record.address()).expect("`PeerId` to exist");
